@@ -1,5 +1,7 @@
 import SekaiProofs.Lemmas.Layer2LP
 import Sekai.Model.Layer2Oper
+import Sekai.Gen.Keys
+import SekaiProofs.Lemmas.Keys
 /-! # C20 — Layer-2 dApp bonds are escrowed one-to-one; the LP pool gives no free money
 
 Model: `Sekai/Model/Layer2.lean` (mirrors `x/layer2` as coded; tied to the Go code by `harness/c20.go`, which makes the
@@ -558,5 +560,13 @@ example :
     let b : Bank := { bal := fun a d => if a = Acct.l2 ∧ d = lpOf alp then 5000 else 0, supply := fun _ => 0, tokReg := fun _ => false }
     ((refundExiting b (lpOf alp) [o]).map fun b' => (b'.bal (.user 2) (lpOf alp), b'.bal .l2 (lpOf alp))) = some (3000, 2000) := by
   decide
+
+/-! ### Key spaces of the stores this model keeps in separate maps (table `Gen.Keys`)
+
+The model keeps each record kind of a module in a field of its own; the module keeps them in ONE store under byte prefixes.
+No prefix extends another (checked on the regenerated table), so by `Sekai.Keys.keys_of_different_kinds_differ` a key of one
+kind is never a key of another kind. -/
+
+theorem layer2_key_spaces_disjoint : Sekai.Keys.disjoint Sekai.Gen.Keys.stores "layer2" = true := by decide +kernel
 
 end Sekai.Props.C20
